@@ -74,6 +74,7 @@ def run(chk, facts, rule, unit_ok=None, min_instances=20):
                             return callee_name(x)
                 return None
             bad = None
+            legit = False
             for (db, di, dln, dm) in ds:
                 seen = set()
                 work = [(db, di + 1, None)]
@@ -89,9 +90,13 @@ def run(chk, facts, rule, unit_ok=None, min_instances=20):
                             stop = True            # redefined: a fresh snapshot
                             break
                         if w and any((bb, j) == (u[0], u[1]) for u in uses):
-                            # the use may be in the same element as the advancing call only if it is an argument
-                            bad = (w, els[j][0], dln)
-                            break
+                            # the one legitimate stale use: the "old address" argument of LabelModify(old, new)
+                            if all(x[0] != 'call' or callee_name(x) != 'LabelModify' or not x[2] or nocast(x[2][0]) != L
+                                   for x in walk_own(els[j][1])) or \
+                                    sum(1 for x in walk(els[j][1]) if isinstance(x, (list, tuple)) and len(x) == 2 and tuple(x) == L) != 1:
+                                bad = (w, els[j][0], dln)
+                                break
+                            legit = True
                         ww = advancing(els[j][1])
                         if ww:
                             w = ww
@@ -105,10 +110,9 @@ def run(chk, facts, rule, unit_ok=None, min_instances=20):
             key = '%s:%s:%s' % (f.unit.name, f.name, L[1])
             ok = bad is None
             why = 'no counter-advancing call between snapshot and use (%d uses)' % len(uses)
-            if not ok and key in EXCEPTIONS:
-                chk.exception(rule, key, EXCEPTIONS[key])
-                ok, why = True, 'listed: ' + EXCEPTIONS[key]
-            elif not ok:
+            if ok and legit:
+                why = 'used after the advance only as the old address handed to LabelModify(old, new)'
+            if not ok:
                 why = '%s holds the program counter read at line %d and is used at line %d after %s(), which can advance the ' \
                       'counter: the statement computes with the address before the advance (e.g. before the pad byte)' % (
                           L[1], bad[2], bad[1], bad[0])
